@@ -76,6 +76,7 @@ pub fn deadlock_key(d: &lockmon::Deadlock) -> String {
 /// Waits until `done()`; gives up only after `idle` without any instrumented lock acquisition
 /// anywhere in the process (no progress) or after the hard cap.  Returns whether `done()` held.
 fn wait_with_progress(mut done: impl FnMut() -> bool, idle: Duration, cap: Duration) -> bool {
+    let (idle, cap) = (crate::session::wd(idle), crate::session::wd(cap));
     let t0 = Instant::now();
     let mut last = lockmon::acquisitions();
     let mut last_change = Instant::now();
@@ -151,7 +152,8 @@ pub fn stress(nodes: usize, limit: u32, with_invoke: bool, host_starters: usize,
         r.send("go");
     }
     // watch
-    let deadline = Instant::now() + Duration::from_millis(400 + (limit as u64) * 4);
+    // (inside the Miri interpreter the same scenario needs minutes; the loop also ends when every ring session ended)
+    let deadline = Instant::now() + if cfg!(miri) { Duration::from_secs(90) } else { Duration::from_millis(400 + (limit as u64) * 4) };
     let mut deadlock = None;
     let mut stuck = false;
     loop {
@@ -220,12 +222,20 @@ pub fn run(args: &Args, rep: &mut Report) {
     let mut rng = args.rng(17);
     let runs = args.scale(4, 40);
     for r in 0..runs {
-        let nodes = *rng.pick(&[2usize, 3, 5, 8]);
-        let with_invoke = r % 2 == 0;
-        let hosts = r % 3;
+        let mut nodes = *rng.pick(&[2usize, 3, 5, 8]);
+        let mut with_invoke = r % 2 == 0;
+        let mut hosts = r % 3;
+        let mut limit = if args.thorough() { 400 } else { 150 };
+        if args.miri() {
+            let v = args.seed as usize + args.shard;
+            nodes = 2;
+            with_invoke = v % 2 == 0;
+            hosts = v % 3 % 2;
+            limit = 6;
+        }
         let jitter = if r % 2 == 1 { rng.next() | 1 } else { 0 };
         let shutdown = r % 4 == 3;
-        let res = stress(nodes, if args.thorough() { 400 } else { 150 }, with_invoke, hosts, jitter, shutdown);
+        let res = stress(nodes, limit, with_invoke, hosts, jitter, shutdown);
         rep.evaluations += 1;
         if let Some(n) = &res.note {
             rep.inconclusive(n);
